@@ -18,7 +18,9 @@
 (*                                                                         *)
 (* Part 2 (state machine): connections, Dial, Send(c), PeerReply,          *)
 (* Deliver(c, n), PeerEof(c), Return(o), Close(c) over abstract exchanges  *)
-(* [headEnd, end, closeAfter, reqClose, untilClose, big].  Properties:     *)
+(* [headEnd, end, closeAfter, reqClose, untilClose, big, early] (early:     *)
+(* EarlyReply(c): the peer answers and closes without reading the request; *)
+(* the client's write fails and it reads what is there).  Properties:      *)
 (*   CleanReuse        a request is only written to a connection on which  *)
 (*                     every byte the peer has sent was consumed;          *)
 (*   NoReuseAfterClose never to a connection whose last response ended it  *)
@@ -212,9 +214,11 @@ RawOK(L, e) ==
 Big(s, cfg) == cfg.maxResp > 0 /\ RHasBody(s) /\ s.bodyLen > cfg.maxResp
 
 \* what the client returned (a Returned record) is the expected response
-ReturnedOK(L, s, cfg) ==
+ReturnedOK(L, s, cfg, early) ==
     LET e == ExpectedResponse(s, ~cfg.noNormHdr) IN
-    IF Big(s, cfg) /\ ~cfg.stream THEN L.err = "tooLarge"
+    \* after an early answer the client may report the failed write instead of the response (never an over-limit body)
+    IF early /\ L.err \in {"eof", "badPoolConn"} THEN TRUE
+    ELSE IF Big(s, cfg) /\ (~cfg.stream \/ early) THEN L.err = "tooLarge"
     ELSE IF Big(s, cfg) /\ L.err = "tooLarge" THEN TRUE
     ELSE /\ L.err = "" /\ L.readErr = ""
          /\ L.status = e.status
@@ -254,7 +258,7 @@ Usable(c) == /\ c \in DOMAIN conns /\ conns[c].open /\ ~conns[c].mustClose
              /\ conns[c].rd = conns[c].avail
 
 \* reqI.Write / ProxyWrite + Flush on connection c
-Send(c) == /\ phase = "idle" /\ xn <= N /\ Usable(c)
+Send(c) == /\ phase = "idle" /\ xn <= N /\ Usable(c) /\ ~xs[xn].early
            /\ cur' = c /\ phase' = "sent"
            /\ UNCHANGED <<xs, stream, xn, conns, ret>>
 
@@ -266,6 +270,17 @@ PeerReply == /\ phase = "sent"
                                        ![cur].untilClose = xs[xn].untilClose]
              /\ phase' = "replied"
              /\ UNCHANGED <<xs, stream, xn, cur, ret>>
+
+\* the peer answers EARLY: it has queued the response of exchange xn and closed without reading the request; the
+\* client's write / flush on connection c fails with "connection closed" and the client then reads what is there
+\* (doNonNilReqResp, branch errs.ErrConnectionClosed: ReadHeaderAndLimitBody with MaxResponseBodySize)
+EarlyReply(c) == /\ phase = "idle" /\ xn <= N /\ Usable(c) /\ xs[xn].early
+                 /\ conns' = [conns EXCEPT ![c].base = conns[c].avail,
+                                           ![c].avail = conns[c].avail + xs[xn].end,
+                                           ![c].peerClosed = TRUE,
+                                           ![c].untilClose = xs[xn].untilClose]
+                 /\ cur' = c /\ phase' = "replied"
+                 /\ UNCHANGED <<xs, stream, xn, ret>>
 
 \* one socket read hands n more bytes to the client
 Deliver(c, n) == /\ c \in DOMAIN conns /\ conns[c].open /\ n >= 1
@@ -280,7 +295,9 @@ PeerEof(c) == /\ c \in DOMAIN conns /\ conns[c].open /\ conns[c].peerClosed /\ ~
               /\ UNCHANGED <<xs, stream, xn, phase, cur, ret>>
 
 \* outcomes the client may return for an exchange (a function of the exchange and the mode only)
-Outcomes(x) == IF x.big THEN (IF stream THEN {"ok", "tooLarge"} ELSE {"tooLarge"}) ELSE {"ok"}
+\* (after an early answer the client may also report the failed write: "closed")
+Outcomes(x) == (IF x.big THEN (IF stream THEN {"ok", "tooLarge"} ELSE {"tooLarge"}) ELSE {"ok"})
+               \cup (IF x.early THEN {"closed"} ELSE {})
 
 \* Do returns (streaming mode: and the body stream has been read to its end and closed).  "ok" needs the whole
 \* response (read-until-close: and the end of the stream); an over-limit refusal needs at least the head and gives
@@ -292,7 +309,7 @@ Return(o) ==
             /\ xs[xn].untilClose => conns[cur].eofSeen
             /\ conns' = [conns EXCEPT ![cur].rd = conns[cur].avail,
                                       ![cur].mustClose = xs[xn].closeAfter \/ xs[xn].reqClose]
-       ELSE /\ conns[cur].delivered >= conns[cur].base + xs[xn].headEnd
+       ELSE /\ o = "tooLarge" => conns[cur].delivered >= conns[cur].base + xs[xn].headEnd
             /\ conns' = [conns EXCEPT ![cur].mustClose = TRUE]
     /\ ret' = Append(ret, o) /\ xn' = xn + 1 /\ phase' = "idle" /\ cur' = 0
     /\ UNCHANGED <<xs, stream>>
@@ -303,9 +320,9 @@ Close(c) == /\ c \in DOMAIN conns /\ conns[c].open
             /\ UNCHANGED <<xs, stream, xn, phase, cur, ret>>
 
 Next == \/ (Len(conns) < N + 1 /\ Dial)
-        \/ (\E c \in DOMAIN conns : Send(c) \/ PeerEof(c) \/ Close(c) \/ \E n \in 1 .. 3 : Deliver(c, n))
+        \/ (\E c \in DOMAIN conns : Send(c) \/ EarlyReply(c) \/ PeerEof(c) \/ Close(c) \/ \E n \in 1 .. 3 : Deliver(c, n))
         \/ PeerReply
-        \/ (\E o \in {"ok", "tooLarge"} : Return(o))
+        \/ (\E o \in {"ok", "tooLarge", "closed"} : Return(o))
 
 -----------------------------------------------------------------------------
 (* properties *)
@@ -316,7 +333,8 @@ NoOverread == \A c \in DOMAIN conns : conns[c].rd <= conns[c].delivered /\ conns
 \* a request is written only to a connection without unread bytes ...
 CleanReuse == phase = "sent" => conns[cur].rd = conns[cur].avail
 \* ... and never to one that the previous response (or request) ended
-NoReuseAfterClose == phase = "sent" => ~conns[cur].peerClosed /\ ~conns[cur].mustClose
+NoReuseAfterClose == /\ phase = "sent" => ~conns[cur].peerClosed /\ ~conns[cur].mustClose
+                     /\ \A c \in DOMAIN conns : (c # cur /\ conns[c].peerClosed) => ~Usable(c)
 \* every request gets exactly one response: the bytes sent by the peer are the responses of the exchanges so far
 RECURSIVE SumEnd(_)
 SumEnd(n) == IF n = 0 THEN 0 ELSE xs[n].end + SumEnd(n - 1)
